@@ -29,14 +29,13 @@ Lemma effects_cover_sysops :
   forallb (fun np => is_some (assoc (fst np) effects_of) && is_some (label_of (fst np))) gen_sysops = true.
 Proof. vm_compute. reflexivity. Qed.
 
-(** each row of effects_of respects the label of its operation: Pure calls nothing, Impure only
-    read-only methods - except the listed operations, which are reported as findings *)
+(** each row of effects_of respects the label of its operation in the code as it stands: a Pure
+    operation calls nothing but ambient methods, an Impure one only read-only methods.  No exceptions. *)
 Definition row_ok (row : string * list string) : bool :=
   match label_of (fst row) with
   | Some p => label_ok p (snd row)
   | None => false end.
-Lemma effects_respect_labels :
-  forallb (fun row => row_ok row || smem (fst row) label_exceptions) effects_of = true.
+Lemma effects_respect_labels : forallb row_ok effects_of = true.
 Proof. vm_compute. reflexivity. Qed.
 
 (** every trait method has a class; the methods SafeSys overrides are exactly the documented
@@ -69,13 +68,17 @@ Proof.
   - unfold method_confined in H. rewrite Hs in H. cbn [orb] in H. exact H.
 Qed.
 
-(** record of the labelling defects found (labels of the code at the time of writing, independent
-    of the regenerated table so that it stays checkable after a repair) *)
-Definition labels_snapshot : list (string * purity) :=
-  [("FOpen", Impure); ("UnStack", Impure); ("UnDump", Impure); ("TryClose", Pure)]%string.
-Lemma labels_refuted_pre : forall op p, In (op, p) labels_snapshot ->
+(** RECORD of the labelling defects found and repaired (fix commits 1cead72, d78a439, 06086d8):
+    with the labels of the code before those commits the four rows violated their label; with the
+    regenerated labels they satisfy it. *)
+Lemma labels_refuted_pre : forall op p, In (op, p) labels_pre ->
   label_ok p (effects op) = false.
 Proof.
   intros op p H. cbn in H.
   repeat (destruct H as [H | H]; [inversion H; subst; vm_compute; reflexivity|]). contradiction.
+Qed.
+Lemma labels_repaired : forall op, In op label_exceptions_pre -> row_ok (op, effects op) = true.
+Proof.
+  intros op H. cbn in H.
+  repeat (destruct H as [H | H]; [subst; vm_compute; reflexivity|]). contradiction.
 Qed.
